@@ -1,6 +1,39 @@
-import YncaVerif.Model.Conn
-/-! # C07 — (dialogue-level statements; under construction) -/
+import YncaVerif.Props.C03
+import YncaVerif.Gen.Consts
+/-! # C07 — initialize() exposes exactly the subunits the device has, fully populated
+
+Stage barriers (`C07_one_version_outstanding`, `C07_barrier_all_stages`) are in Props/C06b.lean over the L5
+dialogue model.  Here: the object-level consequences over L3 — what a subunit object reads once its stage's
+lines have been processed — and the facts about the regenerated tables the detection stage relies on. -/
 namespace Ynca.C07
-open Ynca.L4
-theorem C07_model_initial_state : run ⟨100000, 30000000, 2000000, 1000000, 0⟩ {} [] = some {} := rfl
+
+/-- **populated**: an object that has been handed the processed lines `h` (all subunits, error replies and
+    unsolicited reports interleaved) reads, for every readable function, the typed decoding of the last value
+    reported for exactly its subunit and function — so if the device's answer to the GET of `f` (or of the
+    multi-value query containing it) is among the processed lines, the attribute is that value or a later
+    report for the same function -/
+theorem C07_populated (tbls : List EnumTbl) (ex : Exotic) (c : Cls) (hc : clsOk c = true)
+    (f : Fn) (hf : f ∈ c.fns) (hget : f.get = true) (h : List Msg) :
+    readAttr (h.foldl (recv tbls ex) (SubSt.new c)) f.attr = .value (lastReported tbls ex c f h) :=
+  C03.C03_read_is_last tbls ex c hc f hf hget h
+
+/-- a value line for `(c.id, f)` at the end of the processed prefix is what the attribute reads -/
+theorem C07_answer_is_read (tbls : List EnumTbl) (ex : Exotic) (c : Cls) (hc : clsOk c = true)
+    (f : Fn) (hf : f ∈ c.fns) (hget : f.get = true) (h : List Msg) (v : String) (val : Val)
+    (hd : decodeFull tbls ex f.conv v = some val) :
+    readAttr ((h ++ [(⟨.ok, some c.id, some f.name, some v⟩ : Msg)]).foldl (recv tbls ex) (SubSt.new c)) f.attr = .value (some val) := by
+  rw [C03.C03_read_is_last tbls ex c hc f hf hget]
+  simp [C03.lastReported, Ynca.lastReported, Ynca.reports, hd]
+
+/-- **identity / class lookup**: every subunit id the detection stage probes, except none, has exactly one class
+    in the regenerated tables, and ids are pairwise distinct -/
+def idsOk (ids : List String) (cs : List Cls) : Bool :=
+  ids.all (fun i => (cs.filter (·.id == i)).length == 1) && nodupStr ids && nodupStr (cs.map (·.id))
+
+theorem C07_class_for_every_id : idsOk Gen.subunitIds Gen.classes = true := by decide +kernel
+
+/-- every class models `AVAIL` as a readable function (the detection query is answerable for each) -/
+theorem C07_avail_everywhere : Gen.classes.all (fun c => c.fns.any (fun f => f.name == "AVAIL" && f.get)) = true := by
+  decide +kernel
+
 end Ynca.C07
